@@ -155,6 +155,19 @@ def step (s : State) (toks : List String) : State × String :=
       | .ok (.error sh) => ({}, s!"err {showShape sh}")
       | .ok (.ok t) => ({ tview := some (TView.ofTensor t) }, "ok")
     | _, _ => ({}, "bad-op")
+  | "@" :: "to_range" :: sS :: lS :: _ =>
+    -- `Range<usize>::from(IndexRange::new(start, length))`, demanded: the saturated end (fix D-14)
+    match sS.toNat?, lS.toNat? with
+    | some st, some l =>
+      let r := IndexRange.toStdRange ⟨st, l⟩
+      ({}, s!"ok {r.1}..{r.2}")
+    | _, _ => ({}, "bad-op")
+  | "@" :: "from_range" :: sS :: eS :: _ =>
+    match sS.toNat?, eS.toNat? with
+    | some st, some e =>
+      let r := IndexRange.ofStdRange st e
+      ({}, s!"ok {r.start}:{r.length}")
+    | _, _ => ({}, "bad-op")
   | "@" :: "is_valid" :: shapeS :: _ =>
     match parseShape shapeS with
     | some shape => ({}, toString (isValidShape shape))
